@@ -1,7 +1,10 @@
 """C03 -- no network input can crash ingestion.
 (a) every TLC-enumerated lexer case (incl. header numbers near 2^32 / 2^64) through the real lexer under recover()
 (b) the same lines embedded in datagrams through a real DatagramParser goroutine (survives, counts bad lines, parses later lines)
-(c) TLC-enumerated request sequences (HttpIngest.tla) x encodings x seeded corruptions through the real ingestion router."""
+(c) TLC-enumerated request sequences (HttpIngest.tla) x encodings x seeded corruptions through the real ingestion router.
+(d) rcvstage: zero-length and other datagrams through the real receiver (clauses Alive / Lost); (b) also pumps the first token of the
+    shortest lines systematically (every length x every odd byte x datagram shape x bad-line logging on / off); (c) has a real-time limit per
+    request (a wedged endpoint is a violation) and a phase of overlapping requests."""
 import os
 import vlib
 import rcvstage
